@@ -42,10 +42,51 @@ fn length_case(rng: &mut Rng, idx: u64, rec: &mut Rec) {
         if te10 { "Transfer-Encoding: chunked\r\n" } else { "" },
         n
     );
-    let mut f = super::c05::recv_flow(*rng.pick(&["GET", "POST", "DELETE"]));
-    match f.try_response(head.as_bytes()) {
-        Ok((k, Some(_))) if k == head.len() => {}
-        other => return rec.fail("C08/setup", format!("{:?}", other.map(|v| v.0))),
+    // one case in six: the request used Expect: 100-continue, the caller gave up waiting, and the late
+    // 100 arrives in the same window as the head and the first body bytes
+    let late_100 = rng.chance(1, 6);
+    let mut f = if late_100 {
+        rec.cov("length/behind-a-late-100");
+        match super::c05::recv_flow_via(super::c05::Route::ExpectGaveUp, b"") {
+            Some(f) => f,
+            None => return rec.fail("C08/setup", "expect route".into()),
+        }
+    } else {
+        super::c05::recv_flow(*rng.pick(&["GET", "POST", "DELETE"]))
+    };
+    if late_100 {
+        let interim = b"HTTP/1.1 100 Continue\r\n\r\n";
+        let mut first = interim.to_vec();
+        first.extend_from_slice(head.as_bytes());
+        first.extend_from_slice(&stream[..avail.min(40)]);
+        let mut used = 0usize;
+        let mut got = false;
+        for _ in 0..3 {
+            match f.try_response(&first[used..]) {
+                Ok((k, r)) => {
+                    used += k;
+                    if r.is_some() {
+                        got = true;
+                        break;
+                    }
+                    if k == 0 {
+                        break;
+                    }
+                }
+                Err(e) => return rec.fail("C08/setup", format!("{:?}", e)),
+            }
+        }
+        if !got || used != interim.len() + head.len() {
+            return rec.fail(
+                "C08/body-offset-after-late-100",
+                format!("late 100 ({} bytes) + head ({} bytes) in one window: {} bytes consumed before the body, response returned: {}", interim.len(), head.len(), used, got),
+            );
+        }
+    } else {
+        match f.try_response(head.as_bytes()) {
+            Ok((k, Some(_))) if k == head.len() => {}
+            other => return rec.fail("C08/setup", format!("{:?}", other.map(|v| v.0))),
+        }
     }
     let mut b = match f.proceed() {
         Some(RecvResponseResult::RecvBody(b)) => b,
@@ -212,6 +253,34 @@ fn close_case(rng: &mut Rng, idx: u64, rec: &mut Rec) {
     }
 }
 
+/// Responses that have no body although they carry a Content-Length (HEAD, 204, 304, 1xx): not one
+/// byte of what follows on the connection may be taken as body.
+fn bodyless_case(idx: u64, rec: &mut Rec) {
+    let (method, status) = [("HEAD", 200u16), ("GET", 204), ("GET", 304), ("POST", 304), ("HEAD", 301), ("GET", 199), ("DELETE", 204), ("HEAD", 404)][(idx % 8) as usize];
+    let n = [1u64, 5, 70_000, u64::MAX][(idx / 8 % 4) as usize];
+    let head = format!("HTTP/1.1 {} X\r\nContent-Length: {}\r\n{}\r\n", status, n, if status == 301 { "Location: /n\r\n" } else { "" });
+    let mut stream = head.clone().into_bytes();
+    stream.extend_from_slice(NEXT);
+    let cfg = ReqCfg::new(method, "http://h.test/x");
+    let f = match fast_to_recv(&cfg) {
+        Ok(f) => f,
+        Err(e) => return rec.fail("C08/setup", e),
+    };
+    rec.call();
+    match fast_response(f, &stream) {
+        Ok((_, _, consumed, body)) => {
+            rec.cov(&format!("bodyless-with-length/{}-{}", method, status));
+            if consumed != head.len() || !body.is_empty() {
+                rec.fail(
+                    "C08/over-read",
+                    format!("{} {} with Content-Length {} has no body, yet {} bytes beyond the head were consumed and {} delivered: they belong to the next response", method, status, n, consumed.saturating_sub(head.len()), body.len()),
+                );
+            }
+        }
+        Err(e) => rec.fail("C08/bodyless-exchange-failed", e),
+    }
+}
+
 impl Property for P {
     fn id(&self) -> &'static str {
         "C08"
@@ -226,12 +295,15 @@ impl Property for P {
         vec![
             Workload::new("length", tier.pick(20_000, 2_500_000), false, "Content-Length bodies"),
             Workload::new("close", tier.pick(8_000, 1_200_000), false, "close-delimited bodies"),
+            Workload::new("bodyless-with-length", 32, true, "HEAD / 204 / 304 / 1xx carrying a Content-Length, followed by a next response"),
         ]
     }
     fn run_case(&self, wl: &str, idx: u64, seed: u64, rec: &mut Rec) {
         let mut rng = Rng::derive(seed, wl, idx);
         if wl == "length" {
             length_case(&mut rng, idx, rec)
+        } else if wl == "bodyless-with-length" {
+            bodyless_case(idx, rec)
         } else {
             close_case(&mut rng, idx, rec)
         }
@@ -239,10 +311,11 @@ impl Property for P {
     fn floors(&self, _tier: Tier) -> Vec<(String, u64)> {
         [
             "length/window<left/*", "length/window=left/*", "length/window>left/out>=window", "length/window>left/out<window", "length/window>left/out=0", "length/read-after-complete", "close/out=0", "close/out<window", "close/out>=window",
-            "close/proceed-early", "close/proceed-at-end", "length/status-3xx", "length/status-other/http10-with-ignored-chunked",
+            "close/proceed-early", "close/proceed-at-end", "length/status-3xx", "length/behind-a-late-100", "length/status-other/http10-with-ignored-chunked",
         ]
         .iter()
         .map(|k| (k.to_string(), 50))
+        .chain(std::iter::once(("bodyless-with-length/*".to_string(), 32)))
         .collect()
     }
 }
